@@ -71,7 +71,53 @@ def check(size, w, u0):
     return None
 
 
+def concurrent_calls():
+    """two or three threads resampling at the same time (two samplers driven from two threads; posterior(resample=True) from a worker
+    while run() is going): weights with integer n*w_i have exactly one correct answer for every offset - n*w_i copies of i.  On a tree
+    without shared state this can never fail, whatever the interleaving; with shared scratch state it fails with high probability
+    (tiny switch interval, many rounds).  Bounded and probabilistic on the detection side only."""
+    import threading, sys as _sys
+    jobs = [(64, np.array([0.25, 0.25, 0.5])), (256, np.array([0.5, 0.25, 0.125, 0.125])), (1024, np.full(8, 0.125))]
+    bad = []
+    old = _sys.getswitchinterval()
+    _sys.setswitchinterval(1e-6)
+
+    def work(size, w, rounds):
+        want = np.rint(size * w).astype(int)
+        for _ in range(rounds):
+            if bad:
+                return
+            idx = np.asarray(tools.systematic_resample(size, w.copy()))
+            got = np.bincount(idx, minlength=len(w)) if len(idx) and idx.min() >= 0 and idx.max() < len(w) else None
+            if got is None or len(idx) != size or not np.array_equal(got, want) or np.any(np.diff(idx) < 0):
+                bad.append((size, w.tolist(), None if got is None else got.tolist(), want.tolist()))
+                return
+    try:
+        for nthreads in (2, 3, 3, 3):
+            ths = [threading.Thread(target=work, args=(jobs[k][0], jobs[k][1], 400)) for k in range(nthreads)]
+            for t in ths:
+                t.start()
+            for t in ths:
+                t.join()
+            if bad:
+                break
+    finally:
+        _sys.setswitchinterval(old)
+    if bad:
+        size, w, got, want = bad[0]
+        return (f"{'two' if len(ths) == 2 else 'three'} threads calling systematic_resample concurrently: for weights {w} and n = {size} the copies are {got}, the only correct "
+                f"answer for every offset is {want}: the calls share state"), {"threads": len(ths), "size": size, "weights": w}
+    return None, None
+
+
 def main():
+    try:
+        r, what = concurrent_calls()
+    except Exception as e:
+        r, what = None, None
+    if r:
+        print(json.dumps({"reproduced": True, "tried": 1, "detail": r, "input": what}))
+        return
     p = json.load(open(sys.argv[1]))
     inp = p.get("input") or {}
     tried = 0
